@@ -1,6 +1,8 @@
 //! vcheck: all drivers that do not need the language server.
 //! usage: vcheck <Cxx> [--tier quick|thorough] [--replay FILE] [--worker] [--strict]
 mod ergx;
+mod gen;
+mod progrun;
 mod props;
 
 use vkit::engine::{drive_main, parse_args};
